@@ -192,7 +192,9 @@ func fromCtyNumberUInt(bf *big.Float, target reflect.Value, path cty.Path) error
 	}
 
 	iv, accuracy := bf.Uint64()
-	if accuracy != big.Exact || iv > max {
+	// (big.Float.Uint64 can report a truncated fraction as exact, so the
+	// whole-number requirement is checked separately.)
+	if !bf.IsInt() || accuracy != big.Exact || iv > max {
 		return path.NewErrorf("value must be a whole number, between 0 and %d inclusive", max)
 	}
 
